@@ -926,38 +926,81 @@ theorem nodeVal_gate (n : Nat) (hn : n < nodes.size) (op : CmpOp) (a b v : Arg) 
 
 end NodeVal
 
-/-- values of comparison / logical nodes are 0 or 1 -/
-theorem bool_nodeVal (nodes : Array CNode) (env : Env) (m : Nat) (h : isBoolNode nodes m = true) :
-    nodeVal nodes env m = 0 ∨ nodeVal nodes env m = 1 := by
-  unfold isBoolNode at h
-  cases hnd : nodes[m]? with
-  | none => simp [hnd] at h
-  | some nd =>
-    obtain ⟨hn, hnd'⟩ := kind_getD nodes m nd hnd
-    have bb : ∀ bv : Bool, boolI bv = 0 ∨ boolI bv = 1 := by intro bv; cases bv <;> simp [boolI]
-    cases nd with
-    | cmp op a b ty =>
-      rw [nodeVal_eq nodes env m hn ty (by rw [hnd']; rfl), hnd']; simp only [evalNode, get_single, if_pos rfl]; simpa using bb _
-    | land a b ty =>
-      rw [nodeVal_eq nodes env m hn ty (by rw [hnd']; rfl), hnd']; simp only [evalNode, get_single, if_pos rfl]; simpa using bb _
-    | lor a b ty =>
-      rw [nodeVal_eq nodes env m hn ty (by rw [hnd']; rfl), hnd']; simp only [evalNode, get_single, if_pos rfl]; simpa using bb _
-    | lnot a ty =>
-      rw [nodeVal_eq nodes env m hn ty (by rw [hnd']; rfl), hnd']; simp only [evalNode, get_single, if_pos rfl]; simpa using bb _
-    | gate op a b w ty =>
-      cases w with
-      | node q => simp [hnd] at h
-      | int k =>
-        simp only [hnd, Bool.or_eq_true, beq_iff_eq] at h
+/-- values of boolean nodes are 0 or 1 -/
+theorem bool_nodeValF (nodes : Array CNode) (env : Env) :
+    ∀ (f m : Nat), isBoolNodeF nodes f m = true → nodeVal nodes env m = 0 ∨ nodeVal nodes env m = 1 := by
+  intro f
+  induction f with
+  | zero => intro m h; simp [isBoolNodeF] at h
+  | succ f ih =>
+    intro m h
+    unfold isBoolNodeF at h
+    cases hnd : nodes[m]? with
+    | none => simp [hnd] at h
+    | some nd =>
+      obtain ⟨hn, hnd'⟩ := kind_getD nodes m nd hnd
+      have bb : ∀ bv : Bool, boolI bv = 0 ∨ boolI bv = 1 := by intro bv; cases bv <;> simp [boolI]
+      -- a boolean argument below `m`
+      have argB : ∀ a : Arg, (match a with
+            | .int k => k == 0 || k == 1
+            | .node p => decide (p < m) && isBoolNodeF nodes f p) = true →
+          argBelow m a = true ∧ (argVal nodes (evalNodes nodes env) a = 0 ∨ argVal nodes (evalNodes nodes env) a = 1) := by
+        intro a ha
+        cases a with
+        | int k =>
+          simp only [Bool.or_eq_true, beq_iff_eq] at ha
+          exact ⟨rfl, by simpa [argVal] using ha⟩
+        | node p =>
+          simp only [Bool.and_eq_true, decide_eq_true_eq] at ha
+          exact ⟨by simp [argBelow, ha.1], ih p ha.2⟩
+      rw [hnd] at h
+      cases nd with
+      | cmp op a b ty =>
+        rw [nodeVal_eq nodes env m hn ty (by rw [hnd']; rfl), hnd']; simp only [evalNode, get_single, if_pos rfl]; simpa using bb _
+      | land a b ty =>
+        rw [nodeVal_eq nodes env m hn ty (by rw [hnd']; rfl), hnd']; simp only [evalNode, get_single, if_pos rfl]; simpa using bb _
+      | lor a b ty =>
+        rw [nodeVal_eq nodes env m hn ty (by rw [hnd']; rfl), hnd']; simp only [evalNode, get_single, if_pos rfl]; simpa using bb _
+      | lnot a ty =>
+        rw [nodeVal_eq nodes env m hn ty (by rw [hnd']; rfl), hnd']; simp only [evalNode, get_single, if_pos rfl]; simpa using bb _
+      | gate op a b w ty =>
+        cases w with
+        | node q => simp at h
+        | int k =>
+          simp only [Bool.or_eq_true, beq_iff_eq] at h
+          rw [nodeVal_eq nodes env m hn ty (by rw [hnd']; rfl), hnd']
+          simp only [evalNode, get_single, if_pos rfl]
+          have hk : argVal nodes (evalUpTo nodes env m) (.int k) = k := rfl
+          rw [hk]
+          generalize cmp op (argVal nodes (evalUpTo nodes env m) a) (argVal nodes (evalUpTo nodes env m) b) = cb
+          cases cb
+          · left; simp
+          · simpa using h
+      | const ty v =>
+        simp only [Bool.or_eq_true, beq_iff_eq] at h
         rw [nodeVal_eq nodes env m hn ty (by rw [hnd']; rfl), hnd']
-        simp only [evalNode, get_single, if_pos rfl]
-        have hk : argVal nodes (evalUpTo nodes env m) (.int k) = k := rfl
-        rw [hk]
-        generalize cmp op (argVal nodes (evalUpTo nodes env m) a) (argVal nodes (evalUpTo nodes env m) b) = cb
-        cases cb
-        · left; simp
-        · simpa using h
-    | _ => simp [hnd] at h
+        simpa [evalNode] using h
+      | arith op a b ty =>
+        cases op with
+        | mul =>
+          simp only [Bool.and_eq_true] at h
+          obtain ⟨ha1, ha2⟩ := argB a h.1
+          obtain ⟨hb1, hb2⟩ := argB b h.2
+          rw [nodeVal_eq nodes env m hn ty (by rw [hnd']; rfl), hnd']
+          simp only [evalNode, get_single, if_pos rfl, argVal_prefix nodes env m (by omega) a ha1,
+            argVal_prefix nodes env m (by omega) b hb1]
+          rcases ha2 with e1 | e1 <;> rcases hb2 with e2 | e2 <;> rw [e1, e2] <;> decide
+        | _ => simp at h
+      | proj a ty =>
+        obtain ⟨ha1, ha2⟩ := argB a h
+        rw [nodeVal_eq nodes env m hn ty (by rw [hnd']; rfl), hnd']
+        simp only [evalNode, get_single, if_pos rfl, argVal_prefix nodes env m (by omega) a ha1]
+        exact ha2
+      | _ => simp at h
+
+theorem bool_nodeVal (nodes : Array CNode) (env : Env) (m : Nat) (h : isBoolNode nodes m = true) :
+    nodeVal nodes env m = 0 ∨ nodeVal nodes env m = 1 :=
+  bool_nodeValF nodes env (m + 1) m h
 
 theorem bool_argVal (nodes : Array CNode) (env : Env) (a : Arg) (h : isBoolArg nodes a = true) :
     argVal nodes (evalNodes nodes env) a = 0 ∨ argVal nodes (evalNodes nodes env) a = 1 := by
